@@ -17,5 +17,6 @@ Definition items : list (string * kind) := [
   ("aisle", FieldCell);
   ("aisle", UnsafeBlock);
   ("aisle", UnsafeBlock);
+  ("analysis", StaticInterior);
   ("quantity", StaticLazyLock)
 ].
